@@ -75,6 +75,9 @@ def ref_decode(v, maptype="nomap"):
 
 def describe(c):
     """Observable fields of a decoded event."""
+    if not hasattr(c, "short_address") or not hasattr(c, "event_data"):
+        return {"cls": type(c).__name__, "short": None, "inum": None, "igroup": None, "dgroup": None, "itype": None,
+                "data": "not an event: %s" % (c,)}
     sa = c.short_address
     ed = c.event_data
     if type(c).__name__ == "OccupancyEvent" and ed is not None:
@@ -131,6 +134,16 @@ def check_decode(v, maptype, use_map):
             out.append(("C12:occupancy-flags", "%s: flags %r" % (where, (c.movement, c.occupied, c.repeat, c.sensor_type))))
     if exp["cls"] == "LightEvent" and not out and c.illuminance != exp["data"]:
         out.append(("C12:illuminance", "%s: illuminance %r" % (where, c.illuminance)))
+    if not out and v % 5 == 0:
+        # the devicetype argument belongs to 16-bit frames ("ignored for all other frame lengths")
+        dt = (1, 4, 6, 8, 255)[(v // 5) % 5]
+        try:
+            w = command.from_frame(frame.ForwardFrame(24, v), devicetype=dt, dev_inst_map=full_map(maptype) if use_map else None)
+            if not isinstance(w, dg._Event) or describe(w) != got:
+                out.append(("C12:devicetype-argument-changes-24-bit-decode", "%s: with devicetype=%d decoded %r, with 0 %r"
+                            % (where, dt, w, got)))
+        except Exception as e:  # noqa
+            out.append(("C12:decode-raised:%s@%s" % (type(e).__name__, library_frame(e.__traceback__)), "%s devicetype=%d: %r" % (where, dt, e)))
     return out
 
 
@@ -167,6 +180,34 @@ def check_metamorphic(short, inum, t, data):
             a, b = describe(via_map), describe(direct)
             if a["cls"] != b["cls"] or a["data"] != b["data"] or a["itype"] != b["itype"] or a["short"] != b["short"]:
                 out.append(("C12:map-vs-in-frame-type", "%s: via map %r, device-scheme frame %r" % (where, a, b)))
+        # a bus monitor keeps ONE map and fills it in as it learns types: the same frame seen before and after
+        # the entry was added (same map object), and the ambiguous event retried before and after
+        grow = DeviceInstanceTypeMapper()
+        early = command.from_frame(frame.ForwardFrame(24, v_di), dev_inst_map=grow)
+        early_retry = early.retry_decode(grow) if type(early).__name__ == "AmbiguousInstanceType" else "n/a"
+        grow.add_type(short_address=short, instance_number=inum, instance_type=t)
+        late = command.from_frame(frame.ForwardFrame(24, v_di), dev_inst_map=grow)
+        if type(early).__name__ != "AmbiguousInstanceType" or early_retry is not None:
+            out.append(("C12:not-ambiguous", "%s: with a still-empty map decoded as %s (retry %r)"
+                        % (where, type(early).__name__, early_retry)))
+        if describe(late) != describe(via_map):
+            out.append(("C12:map-growth-ignored", "%s: same map object after the entry was added decodes %r, expected %r"
+                        % (where, describe(late), describe(via_map))))
+        late_retry = early.retry_decode(grow)
+        if late_retry is None or describe(late_retry) != describe(via_map):
+            out.append(("C12:retry-after-map-growth", "%s: retry after the entry was added gave %r, expected %r (an earlier "
+                        "retry with the then-empty map had returned None)" % (where, late_retry and describe(late_retry), describe(via_map))))
+        grow.add_type(short_address=short, instance_number=inum, instance_type=(t + 1) % 32 if isinstance(t, int) else 3)
+        changed = command.from_frame(frame.ForwardFrame(24, v_di), dev_inst_map=grow)
+        if describe(changed)["itype"] != ((t + 1) % 32 if isinstance(t, int) else 3):
+            out.append(("C12:map-growth-ignored", "%s: after the entry was replaced the frame still decodes as %r" % (where, describe(changed))))
+        # the devicetype argument belongs to 16-bit frames: "ignored for all other frame lengths"
+        for dt in (1, 6, 8, 255):
+            w = command.from_frame(frame.ForwardFrame(24, v_di), devicetype=dt, dev_inst_map=m)
+            if describe(w) != describe(via_map):
+                out.append(("C12:devicetype-argument-changes-24-bit-decode", "%s: with devicetype=%d decoded %r, with 0 %r"
+                            % (where, dt, describe(w), describe(via_map))))
+                break
         r = amb.retry_decode(m)
         if r is None or describe(r) != describe(via_map) or r.frame.as_integer != v_di:
             out.append(("C12:retry-differs", "%s: retry gave %r, direct decode %r" % (where, r and describe(r), describe(via_map))))
